@@ -12,7 +12,7 @@ import json, os, shutil, subprocess, sys
 from concurrent.futures import ThreadPoolExecutor
 
 VERIF = os.path.dirname(os.path.dirname(os.path.abspath(__file__)))
-WT = "/tmp/seed/verify"
+WT = os.environ.get("SEED_WT", "/tmp/seed/verify")
 bid, src = sys.argv[1], sys.argv[2]
 keep = "--keep" in sys.argv
 patch = os.path.join(src, "patch.diff")
@@ -36,6 +36,9 @@ meta["compiles"] = rc == 0
 sh("git checkout -- . && git clean -fdq", WT)
 print("suite:", meta["suite_with_change"], "| compiles:", meta["compiles"])
 
+import fcntl
+_lock = open("/tmp/seed/repo.lock", "w")
+fcntl.flock(_lock, fcntl.LOCK_EX)
 rc, out = sh("git -C /repo status --porcelain")
 if out.strip():
     print("/repo is not clean; refusing", out); sys.exit(2)
